@@ -778,3 +778,20 @@ lemma("dot_rotation",
       proof="""
 linear_combination a0*b0*h00 + a1*b1*h11 + a2*b2*h22 + (a0*b1 + a1*b0)*h01 + (a0*b2 + a2*b0)*h02 + (a1*b2 + a2*b1)*h12
 """)
+
+
+# ---- a sum of non-negative terms is at least any one of its terms ------------------------------------------------------------
+lemma("sum_ge_one_term",
+      types={"N": "int", "c": "real", "F": "arr1"},
+      hyps=[("hnn", "forall(i, range(0, N), F[i] >= 0)"), ("hex", "exists(i, range(0, N), F[i] >= c)")],
+      concl="Sum(i, range(0, N), F[i]) >= c",
+      proof="""
+obtain ⟨w, hw0, hwN, hwc⟩ := hex
+have hmem : w ∈ Finset.Ico (0:ℤ) N := Finset.mem_Ico.mpr ⟨hw0, hwN⟩
+have hle : F w ≤ ∑ i ∈ Finset.Ico (0:ℤ) N, F i := by
+  apply Finset.single_le_sum (f := F) _ hmem
+  intro i hi
+  have hi' := Finset.mem_Ico.mp hi
+  exact hnn i hi'.1 hi'.2
+linarith
+""")
